@@ -101,20 +101,21 @@ variable {L : Level} (hp : wfParser L.p = true)
 include hp
 
 /-- when every enclosing parser reads the environment exactly when the level itself does, the merges of
-    `handle_subcommands` change nothing at any destination: what is merged UNDER the level's namespace is the base
-    the level started from -/
-theorem finalLevel_eq_own {a : Arg} (ha : a ∈ L.p.args) (c : Call) (hs : srcWfC L.p L.src c = true)
-    (anc : List Bool) (hanc : ∀ e ∈ anc, e = envRead L.p c.envArg) :
-    getK a.dest (finalLevel c anc L) = getK a.dest (ownParse c L) ∧ Inv L.p (finalLevel c anc L) := by
+    `handle_subcommands` change nothing at any destination of a namespace `x0` that was built FROM THE LEVEL'S BASE by any
+    history of assignments: what is merged UNDER it is that base -/
+theorem handleFold_keeps {a : Arg} (ha : a ∈ L.p.args) (c : Call) (hs : srcWfC L.p L.src c = true)
+    (as : List Assign) (x0 : KV) (hx0 : getK a.dest x0 = evalKey a.dest as (getK a.dest (defaultsAndEnvironC L.p L.src c)))
+    (hi0 : Inv L.p x0) (anc : List Bool) (hanc : ∀ e ∈ anc, e = envRead L.p c.envArg) :
+    getK a.dest (anc.foldl (handleStep L c) x0) = getK a.dest x0 ∧ Inv L.p (anc.foldl (handleStep L c) x0) := by
   have hs' := hs
   simp only [srcWfC, Bool.and_eq_true, List.all_eq_true] at hs'
   obtain ⟨hB, hBi⟩ := stage_baseC_exact hp ha L.src c hs
-  obtain ⟨hO, hOi⟩ := stage_argv hp ha L.src.argv _ hs'.2 hBi
+  have hO := hx0
   -- generalise over the namespace being merged
   suffices h : ∀ (anc : List Bool) (x : KV), (∀ e ∈ anc, e = envRead L.p c.envArg) →
-      getK a.dest x = getK a.dest (ownParse c L) → Inv L.p x →
-      getK a.dest (anc.foldl (handleStep L c) x) = getK a.dest (ownParse c L) ∧ Inv L.p (anc.foldl (handleStep L c) x) from
-    h anc _ hanc rfl hOi
+      getK a.dest x = getK a.dest x0 → Inv L.p x →
+      getK a.dest (anc.foldl (handleStep L c) x) = getK a.dest x0 ∧ Inv L.p (anc.foldl (handleStep L c) x) from
+    h anc _ hanc rfl hi0
   intro anc
   induction anc with
   | nil => intro x _ hx hi; exact ⟨hx, hi⟩
@@ -136,8 +137,6 @@ theorem finalLevel_eq_own {a : Arg} (ha : a ∈ L.p.args) (c : Call) (hs : srcWf
             = getK a.dest (defaultsAndEnvironC L.p L.src c) := by
           rw [hS, hB, hb]; rfl
         rw [hSB]
-        show (getK a.dest (L.src.argv.foldl (argvStep L.p) (defaultsAndEnvironC L.p L.src c))).or _
-            = getK a.dest (L.src.argv.foldl (argvStep L.p) (defaultsAndEnvironC L.p L.src c))
         rw [hO]
         exact evalKey_or_start _ _ _
       | false =>
@@ -153,8 +152,6 @@ theorem finalLevel_eq_own {a : Arg} (ha : a ∈ L.p.args) (c : Call) (hs : srcWf
             rw [hD, hB, hb]
             simp only [Bool.false_eq_true, if_false, baseVal, hd, if_true]
           rw [hDB]
-          show (getK a.dest (L.src.argv.foldl (argvStep L.p) (defaultsAndEnvironC L.p L.src c))).or _
-            = getK a.dest (L.src.argv.foldl (argvStep L.p) (defaultsAndEnvironC L.p L.src c))
           rw [hO]
           exact evalKey_or_start _ _ _
     · -- the invariant
@@ -171,6 +168,82 @@ theorem finalLevel_eq_own {a : Arg} (ha : a ∈ L.p.args) (c : Call) (hs : srcWf
         | true =>
           simp only [if_true]
           exact (stage_envMerge hp ha hi (stage_getDefaults hp ha L.src.files hs'.1.1).2).2
+
+
+theorem finalLevel_eq_own {a : Arg} (ha : a ∈ L.p.args) (c : Call) (hs : srcWfC L.p L.src c = true)
+    (anc : List Bool) (hanc : ∀ e ∈ anc, e = envRead L.p c.envArg) :
+    getK a.dest (finalLevel c anc L) = getK a.dest (ownParse c L) ∧ Inv L.p (finalLevel c anc L) := by
+  have hs' := hs
+  simp only [srcWfC, Bool.and_eq_true, List.all_eq_true] at hs'
+  obtain ⟨_, hBi⟩ := stage_baseC_exact hp ha L.src c hs
+  obtain ⟨hO, hOi⟩ := stage_argv hp ha L.src.argv _ hs'.2 hBi
+  exact handleFold_keeps hp ha c hs (asgArgv L.p L.src.argv) _ hO hOi anc hanc
+
+/-! ### sections -/
+
+/-- a config whose own part is `e`, given through the config argument `b` -/
+theorem stage_applyConfigE {a b : Arg} (ha : a ∈ L.p.args) (hb : b ∈ L.p.args) (e : KV) (ht : treeOk L.p e = true)
+    {c : KV} (hi : Inv L.p c) :
+    getK a.dest (applyConfigE L.p b.dest e c) = evalKey a.dest (asgTree e ++ [.note b.dest]) (getK a.dest c)
+    ∧ Inv L.p (applyConfigE L.p b.dest e c) := by
+  obtain ⟨h1, h2⟩ := stage_mergeTree hp ha _ ht hi
+  have : applyConfigE L.p b.dest e c = refStep (mergeConfig L.p e c) (.note b.dest) := rfl
+  rw [this]
+  obtain ⟨h3, h4⟩ := stage_refStep hp ha (.note b.dest) ⟨b, hb, rfl⟩ rfl h2
+  refine ⟨?_, h4⟩
+  rw [h3, h1, evalKey_append]
+  rfl
+
+/-- the level's segment of the command line, configs with sections included: the own part evolves as the fold of the own keys -/
+theorem stage_argvT {a : Arg} (ha : a ∈ L.p.args) (below : List Level) : ∀ (argv : List Item) (st : KV × KV),
+    (∀ it ∈ argv, itemWfT L below it = true) → Inv L.p st.1 →
+    getK a.dest (argv.foldl (argvStepT L below) st).1 = evalKey a.dest (asgArgvT L below argv) (getK a.dest st.1)
+    ∧ Inv L.p (argv.foldl (argvStepT L below) st).1
+  | [], _, _, hi => ⟨rfl, hi⟩
+  | it :: rest, st, h, hi => by
+    have hit := h it List.mem_cons_self
+    have hstep : getK a.dest (argvStepT L below st it).1 = evalKey a.dest (asgItemT L below it) (getK a.dest st.1)
+        ∧ Inv L.p (argvStepT L below st it).1 := by
+      cases it with
+      | set k v =>
+        simp only [itemWfT, itemWf, Bool.and_eq_true] at hit
+        exact stage_refStep hp ha (.set k v) (isDest_spec hit.1) hit.2 hi
+      | append k v =>
+        simp only [itemWfT, itemWf] at hit
+        exact stage_refStep hp ha (.append k v) (isDest_spec hit) rfl hi
+      | item k i v =>
+        simp only [itemWfT, itemWf] at hit
+        exact stage_refStep hp ha (.item k i v) (isDest_spec hit) rfl hi
+      | cfg k t =>
+        simp only [itemWfT, Bool.and_eq_true] at hit
+        obtain ⟨b, hb, e⟩ := isDest_spec hit.1
+        rw [e]
+        exact stage_applyConfigE hp ha hb _ hit.2 hi
+    obtain ⟨h3, h4⟩ := stage_argvT ha below rest _ (fun x hx => h x (List.mem_cons_of_mem _ hx)) hstep.2
+    simp only [List.foldl_cons, asgArgvT, List.flatMap_cons, evalKey_append] at h3 ⊢
+    exact ⟨by rw [h3, hstep.1], h4⟩
+
+/-- a level's own parse with an incoming section and configs that hold sections, then every enclosing `handle_subcommands` -/
+theorem stage_finalLevelT {a : Arg} (ha : a ∈ L.p.args) (c : Call) (below : List Level) (inc : KV)
+    (hs : srcWfC L.p { L.src with argv := [] } c = true) (hargv : ∀ it ∈ L.src.argv, itemWfT L below it = true)
+    (hinc : treeOk L.p (ownPart (nextName below) inc) = true)
+    (anc : List Bool) (hanc : ∀ e ∈ anc, e = envRead L.p c.envArg) :
+    getK a.dest (finalLevelT c anc L below inc) =
+      evalKey a.dest (asgTree (ownPart (nextName below) inc) ++ asgArgvT L below L.src.argv)
+        (getK a.dest (defaultsAndEnvironC L.p L.src c)) := by
+  have hsL : srcWfC L.p { L.src with argv := [] } c = srcWfC L.p { L.src with argv := [] } c := rfl
+  obtain ⟨_, hBi⟩ := stage_baseC_exact hp ha { L.src with argv := [] } c hs
+  have hBi' : Inv L.p (defaultsAndEnvironC L.p L.src c) := hBi
+  obtain ⟨hM, hMi⟩ := stage_mergeTree hp ha _ hinc hBi'
+  obtain ⟨hA, hAi⟩ := stage_argvT hp ha below L.src.argv
+    (mergeConfig L.p (ownPart (nextName below) inc) (defaultsAndEnvironC L.p L.src c), sectionPart (nextName below) inc) hargv hMi
+  have hx0 : getK a.dest (ownParseT c L below inc).1 =
+      evalKey a.dest (asgTree (ownPart (nextName below) inc) ++ asgArgvT L below L.src.argv)
+        (getK a.dest (defaultsAndEnvironC L.p L.src c)) := by
+    rw [evalKey_append, ← hM]
+    exact hA
+  have hk := handleFold_keeps (L := ⟨L.name, L.p, { L.src with argv := [] }⟩) hp ha c hs _ (ownParseT c L below inc).1 hx0 hAi anc hanc
+  exact hk.1.trans hx0
 
 end
 
